@@ -97,7 +97,7 @@ def map_failures(res, gen, unitcfg):
             f['obligation'] = canary[0]; f['props'] = []; f['clause'] = None
             fails.append(f)
             continue
-        if labels and kind in ('postcondition', 'precondition', 'invariant'):
+        if labels and kind in ('postcondition', 'precondition', 'invariant', 'assertion'):
             for l in labels:
                 c = gen.clauses.get(l)
                 if c:
